@@ -246,3 +246,67 @@ func VerifHarness_C08_SaveHandler() {
 	}
 	verifReach("saved")
 }
+
+// C08: "after save reports success, re-loading yields the entry" — also when the write fails
+func VerifHarness_C08_SaveUnderFault() {
+	path := verifFSRoot() + "/cfg/wtf/personal.yml"
+	old := []database.Command{{Command: "old one", Description: "first"}}
+	verifFSPutDoc(path, "yaml", old)
+	e := database.Command{Command: "new cmd", Description: "second", Keywords: []string{"kw"}}
+	k := verifInt("k")
+	verifAssume(k >= 0)
+	verifFSWritePlan(path, 1, k) // the write stops after k bytes with an error (disk full, quota)
+	err := saveToPersonalDatabase(path, e)
+	verifFSWriteUnlimit()
+	db, lerr := database.LoadDatabase(path)
+	if err == nil {
+		found := false
+		if lerr == nil {
+			for _, c := range db.Commands {
+				if c.Command == e.Command && c.Description == e.Description {
+					found = true
+				}
+			}
+		}
+		verifAssert(found, "C08: after a save that reports success, re-loading the notebook yields the entry")
+		verifReach("saved")
+	} else {
+		verifReach("failed")
+	}
+}
+
+// C09: a save interrupted by a kill, followed by a later save: everything saved earlier remains
+func VerifHarness_C09_NotebookTwoSaves() {
+	path := verifFSRoot() + "/cfg/wtf/personal.yml"
+	old := []database.Command{{Command: "old one", Description: "first"}, {Command: "old two", Description: "second"}}
+	verifFSPutDoc(path, "yaml", old)
+	e1 := database.Command{Command: "new one", Description: "third"}
+	e2 := database.Command{Command: "new two", Description: "fourth"}
+	k := verifInt("k")
+	verifAssume(k >= 0)
+	verifFSWritePlan(path, 2, k) // the process is killed k bytes into its write
+	killed := verifCatch(func() { _ = saveToPersonalDatabase(path, e1) })
+	verifFSWriteUnlimit()
+	err2 := saveToPersonalDatabase(path, e2) // the next `wtf save`, on a healthy disk
+	verifAssert(err2 == nil, "C09: a later save on a healthy disk succeeds")
+	db, lerr := database.LoadDatabase(path)
+	verifAssert(lerr == nil, "C09: everything saved earlier remains loadable")
+	if lerr != nil {
+		return
+	}
+	has := func(cmd string) bool {
+		for _, c := range db.Commands {
+			if c.Command == cmd {
+				return true
+			}
+		}
+		return false
+	}
+	verifAssert(has("old one") && has("old two"), "C09: everything saved earlier remains loadable after an interrupted save and a later one")
+	verifAssert(has("new two"), "C09: a save reported as successful took effect")
+	if killed {
+		verifReach("interrupted")
+	} else {
+		verifReach("completed")
+	}
+}
